@@ -938,6 +938,18 @@ var ruleLocFile = &Rule{
 // ---------------------------------------------------------------------------------------------
 // CURSOR: the column counter advances by the text that is removed
 
+// callers that may advance the column by a BYTE count of a variable amount of text (function -> reason)
+var byteAdvanceCallers = map[string]string{
+	"scanIdentifier": "the text removed consists of characters accepted by isLetter / isDigit / '_' (ASCII classes): bytes = characters",
+	"scanNumber":     "the text removed consists of digits, '.', exponent / hex letters and signs (ASCII): bytes = characters",
+	"skipComment":    "a short comment runs to the end of its line: nothing on that line is located after it, and the line start is re-based on the cursor at the line break",
+	"scanShortString": "error paths of an unfinished string: the string runs to the end of the line / of the input, nothing on that line is located after it",
+	"scanLongString":  "invalid delimiter (the `=` run: ASCII) and the unfinished long string that runs to the end of the input; the terminated string uses the character-counting advance",
+}
+
+// number of reviewed byte-advance call sites per function (one more = a new, unreviewed site)
+var byteAdvanceCount = map[string]int{"scanIdentifier": 1, "scanNumber": 1, "skipComment": 1, "scanShortString": 3, "scanLongString": 2}
+
 var ruleCursor = &Rule{
 	Name:    "LOC/cursor-coherence",
 	NeedSSA: true,
@@ -1037,6 +1049,38 @@ var ruleCursor = &Rule{
 				}
 			}
 		}
+		// byte-count advances of a variable amount of text: next(k) with non-constant k
+		next := c.SSAFunc(lexerPkgPath, "Lexer", "next")
+		nb := 0
+		if next != nil {
+			for _, f := range c.ModFns() {
+				if f.Pkg == nil || f.Pkg.Pkg.Path() != lexerPkgPath {
+					continue
+				}
+				cnt := 0
+				for _, b := range f.Blocks {
+					for _, ins := range b.Instrs {
+						call, ok := ins.(*ssa.Call)
+						if !ok || call.Call.StaticCallee() != next || len(call.Call.Args) != 2 {
+							continue
+						}
+						if _, isC := call.Call.Args[1].(*ssa.Const); isC {
+							continue // a fixed number of bytes: punctuation / operators
+						}
+						nb++
+						cnt++
+						key := fmt.Sprintf("LOC/cursor:byte-advance:%s#%d", f.Name(), cnt)
+						if why, ok := byteAdvanceCallers[f.Name()]; ok && cnt <= byteAdvanceCount[f.Name()] {
+							obs = append(obs, Ob{Key: key, Site: c.Pos(call.Pos()), Verdict: OK, Note: "reviewed: " + why})
+						} else {
+							obs = append(obs, Ob{Key: key, Site: c.Pos(call.Pos()), Verdict: VIOLATION,
+								Note: f.Name() + " advances the column counter by a byte count over text of variable length that is not known to be ASCII: multi-byte characters shift every later column on the line (use the character-counting advance)"})
+						}
+					}
+				}
+			}
+		}
+		c.Stats["byte_advances_variable"] = nb
 		obs = append(obs, floor("LOC/cursor-coherence", "advances of the column counter", n, 3))
 		return obs
 	},
